@@ -6,7 +6,7 @@ recursive models and comparator thresholds are reached.
 """
 import random
 
-PLAIN_WORDS = ["red", "green", "blue", "on", "off", "idle", "A", "B", "x y", "né", "ok", "a,b", "it's", 'q"t']
+PLAIN_WORDS = ["red", "green", "blue", "on", "off", "idle", "A", "B", "x y", "né", "ok", "a,b", "it's", 'q"t', "a", "b"]
 LONG_STR = ["this string is longer than twenty characters", "abcdefghijklmnopqrstuvwxyz", "x" * 20]
 KEY_POOLS = {
     "snake": ["id", "name", "user_id", "created_at", "value", "items", "owner", "tags", "count", "data",
@@ -19,7 +19,8 @@ KEY_POOLS = {
 }
 SCALAR_KINDS = ["int", "float", "bool", "null", "str_plain", "str_long", "str_int", "str_float", "str_bool",
                 "str_date", "str_datetime", "str_time"]
-CONTAINER_KINDS = ["list_empty", "list_int", "list_str", "list_mixed", "list_nested", "dict_empty", "dict_like"]
+CONTAINER_KINDS = ["list_empty", "list_int", "list_str", "list_mixed", "list_nested", "dict_empty", "dict_like",
+                   "dict_mixed_keys"]
 ALL_FRAMEWORKS = ["base", "pydantic", "attrs", "dataclasses", "sqlmodel"]
 STR_TYPES = ["int", "float", "bool", "date", "time", "datetime"]
 
@@ -72,7 +73,7 @@ class Gen:
         if self.shapes and r < k["p_nested"]:
             return ["obj", rng.randrange(len(self.shapes))]
         if self.shapes and r < k["p_nested"] + k["p_list_obj"]:
-            return ["list_obj", rng.randrange(len(self.shapes))]
+            return [rng.choice(["list_obj", "list_obj", "list_obj_mixed"]), rng.randrange(len(self.shapes))]
         if r < k["p_nested"] + k["p_list_obj"] + k["p_self"]:
             return [rng.choice(["obj", "list_obj"]), shape_id]  # recursive
         if rng.random() < k["p_container"] and k["container_kinds"]:
@@ -88,7 +89,14 @@ class Gen:
             if self.shapes and rng.random() < k["p_variant"]:
                 # variant of an existing shape: k-of-n shared keys -> comparator thresholds
                 base = rng.choice(self.shapes)
-                fields = [f for f in base if rng.random() < 0.8]
+                fields = [list(f) for f in base if rng.random() < 0.8]
+                for f in fields:
+                    if f[1][0] == "s" and rng.random() < k.get("p_variant_retype", 0.3):
+                        alt = {"int": "float", "float": "int", "str_int": "str_float", "str_float": "str_int",
+                               "str_plain": "str_long", "bool": "int", "null": "int"}
+                        f[1] = ["s", [alt.get(x, x) for x in f[1][1]]]
+                    if rng.random() < 0.15:
+                        f[2] = not f[2]
                 have = {f[0] for f in fields}
                 extra = [key for key in self.keys if key not in have]
                 rng.shuffle(extra)
@@ -123,6 +131,12 @@ class Gen:
         if kind == "dict_like":
             return {str(rng.randrange(100)): scalar(rng, rng.choice(["int", "str_plain", "null"]))
                     for _ in range(rng.randint(1, 3))}
+        if kind == "dict_mixed_keys":
+            # keys from several families: each family matches one of the regex options, only their union covers all
+            fam = [lambda: str(rng.randrange(100)), lambda: rng.choice("abcdefgh") + str(rng.randrange(10)),
+                   lambda: rng.choice(["en", "de", "fr", "x"])]
+            n = rng.randint(2, 4)
+            return {rng.choice(fam[:rng.randint(1, 3)])(): scalar(rng, rng.choice(["int", "str_plain"])) for _ in range(n)}
         raise ValueError(kind)
 
     def instance(self, sid, depth):
@@ -139,15 +153,20 @@ class Gen:
                 out[key] = scalar(rng, rng.choice(spec[1]))
             elif t == "c":
                 out[key] = self.container(spec[1])
-            elif t in ("obj", "list_obj"):
+            elif t in ("obj", "list_obj", "list_obj_mixed"):
                 if depth <= 0:
                     if rng.random() < 0.5:
                         continue
                     out[key] = None if t == "obj" else []
                 elif t == "obj":
                     out[key] = self.instance(spec[1], depth - 1)
-                else:
+                elif t == "list_obj":
                     out[key] = [self.instance(spec[1], depth - 1) for _ in range(rng.randint(0, 2))]
+                else:
+                    # objects next to non-objects in one list (heterogeneous union with a nested model)
+                    items = [self.instance(spec[1], depth - 1) for _ in range(rng.randint(1, 2))]
+                    items.insert(rng.randint(0, len(items)), rng.choice([None, 5, "red", [1]]))
+                    out[key] = items
         if not out:
             key, spec, _ = self.shapes[sid][0]
             out[key] = scalar(rng, "int")
@@ -174,7 +193,8 @@ class Gen:
             "structure": rng.choice(k["structures"]),
             "merge": rng.choice([["percent", "number"], ["exact"], ["percent_50", "number_2"], ["percent_100"],
                                  ["number_1"], ["percent_70"], ["number_3", "exact"], ["percent_30"]]),
-            "dict_keys_regex": rng.choice([[], [], [r"\d+"], [r"[a-z]\d*", r"\d+"]]),
+            "dict_keys_regex": rng.choice([[], [], [r"\d+"], [r"[a-z]\d*", r"\d+"], [r"\d+", r"[a-z]{1,2}"],
+                                           [r"[a-h]\d", r"\d+", r"[a-z]+"], [r"\d"]]),
             "dict_keys_fields": rng.choice([[], [], [rng.choice(self.keys)]]),
             "max_literals": rng.choice([0, 1, 2, 3, 10, 10, 15, 20]),
             "post_init_converters": rng.random() < 0.3,
